@@ -2,7 +2,7 @@
    Only property theorems here: statement, [exact lemma], Print Assumptions. *)
 From Coq Require Import NArith List Bool.
 Require Import SDS.Model.Mach SDS.Model.Bits SDS.gen.Tables SDS.gen.Consts SDS.gen.Funs.
-Require Import SDS.Spec.BitSeq SDS.Proofs.BitsProof.
+Require Import SDS.Spec.BitSeq SDS.Proofs.BitsProof SDS.Proofs.SelectPortable.
 Import ListNotations.
 Open Scope N_scope.
 
@@ -46,13 +46,13 @@ Theorem C17_select_pdep : forall m n r,
 Proof. exact select_pdep_correct. Qed.
 Print Assumptions C17_select_pdep.
 
-(* in-word select, portable path (SWAR prefix popcounts + 2 KiB table): the full statement, same as for
-   the BMI2 path. NOT YET PROVED (the SWAR-to-bytewise lifting, DESIGN section 8 C17); what is proved of the
-   portable path so far is the content of both lookup tables below, and the correspondence runs the
-   portable model and the portable build against the specification. *)
-Definition C17_select_portable_statement : Prop := forall m n r,
+(* in-word select, portable path (SWAR prefix popcounts + 2 KiB table): same statement as for the BMI2 path,
+   for every 64-bit word, every rank below its popcount, overflow checks on and off *)
+Theorem C17_select_portable : forall m n r,
   n < 2 ^ 64 -> r < popcount n ->
   exists p, select_portable m n r = Ok p /\ select_in_word n r = Some p /\ p < 64.
+Proof. exact select_portable_correct. Qed.
+Print Assumptions C17_select_portable.
 
 Theorem C17_select_portable_partial_ps_table : forall i, i <= 64 ->
   nthN PS_OVERFLOW i = Some ((128 - i) * 72340172838076673).
